@@ -15,6 +15,7 @@ import (
 	"github.com/sassoftware/relic/v8/lib/binpatch"
 	"github.com/sassoftware/relic/v8/signers"
 	_ "github.com/sassoftware/relic/v8/signers/msi"
+	_ "github.com/sassoftware/relic/v8/signers/pgp"
 )
 
 func die(err error) {
@@ -96,6 +97,30 @@ func Main(args []string) {
 		}
 		blob := bytes.Repeat([]byte("SIGNATUREBLOB"), 500)
 		if err := t.Apply(dest, "application/pkcs7-mime", bytes.NewReader(blob)); err != nil {
+			die(err)
+		}
+	case "pgp-clearsign-bad", "pgp-inline-bad":
+		// the PGP transformer merging a server response that is not a signature (an HTML error page): a handled error
+		f, err := os.Open(in)
+		if err != nil {
+			die(err)
+		}
+		mod := signers.ByName("pgp")
+		q := url.Values{}
+		if scenario == "pgp-clearsign-bad" {
+			q.Set("clearsign", "true")
+		} else {
+			q.Set("inline", "true")
+		}
+		fl, err := mod.FlagsFromQuery(q)
+		if err != nil {
+			die(err)
+		}
+		t, err := mod.GetTransform(f, signers.SignOpts{Path: in, Hash: crypto.SHA256, Flags: fl, Audit: audit.New("k", "pgp", crypto.SHA256)})
+		if err != nil {
+			die(err)
+		}
+		if err := t.Apply(dest, "application/pgp-signature", bytes.NewReader([]byte("<html><body>502 Bad Gateway</body></html>\n"))); err != nil {
 			die(err)
 		}
 	default:
